@@ -406,8 +406,9 @@ class MultiServiceResponsePacket(SendUnitDataResponsePacket):
 
     def _parse_reply(self):
         super()._parse_reply()
-        if self.service_status not in (None, SUCCESS, 0x1E):
-            # refused as a whole: no service replies follow, the packet's own status is the error to report
+        if self.command_status not in (None, SUCCESS) or self.service_status not in (None, SUCCESS, 0x1E):
+            # refused as a whole (encapsulation error or CIP status of the packet itself): the service replies,
+            # if any, are not results; the packet's own status is the error to report
             return
         try:
             num_replies = UINT.decode(self.data)
